@@ -128,6 +128,8 @@ type Hist struct {
 
 	// AckDepthMax > 0: blocks sometimes acknowledge a momentum up to this many heights behind
 	AckDepthMax int
+	// Focus: contracts that ActCallABI addresses half of the time (e.g. the ones a script has just configured)
+	Focus       []types.Address
 	AckBehind   int
 	AckBehindOK int
 
@@ -174,7 +176,7 @@ func NewHist(c *pbt.C, spec *Spec, o WorldOpts) *Hist {
 // NewHistOn drives another producing node of an existing world (competing branches).
 func NewHistOn(c *pbt.C, w *World, a *Node, like *Hist) *Hist {
 	a.PreflightOn = true
-	h := &Hist{C: c, W: w, A: a, MethodsOK: map[string]int{}, Users: like.Users, Intents: like.Intents, AckDepthMax: like.AckDepthMax}
+	h := &Hist{C: c, W: w, A: a, MethodsOK: map[string]int{}, Users: like.Users, Intents: like.Intents, AckDepthMax: like.AckDepthMax, Focus: like.Focus}
 	h.Sends = append(h.Sends, like.Sends...)
 	h.Htlcs = append(h.Htlcs, like.Htlcs...)
 	h.Projects = append(h.Projects, like.Projects...)
@@ -393,6 +395,9 @@ func (h *Hist) ActReceive() {
 func (h *Hist) ActCallABI() {
 	c := h.C
 	addr := ContractList[c.Pick("call.contract", len(ContractList))]
+	if len(h.Focus) > 0 && c.Bool("call.focus") {
+		addr = h.Focus[c.Pick("call.focusIdx", len(h.Focus))]
+	}
 	names := MethodNames(addr)
 	method := names[c.Pick("call.method", len(names))]
 	layer := c.Weighted("call.layer", 6, 2, 1)
